@@ -6,7 +6,10 @@ What is read, on every run, from the source text:
   * `struct DateTime { year: i64, month: u8, .. nanos: u32 }`                      (field names, order, types)
   * `impl From<SystemTime> for DateTime { fn from(timestamp) -> DateTime { .. } }`  every statement of the body
   * `impl fmt::Display for DateTime { fn fmt(&self, f) -> fmt::Result { .. } }`      every statement of the body,
-    including the format strings of the `write!` calls (literal text, `{}` and `{:0w}` placeholders, argument order).
+    including the format strings of the `write!` calls (literal text, `{}` and `{:0w}` placeholders, argument order);
+  * fmt/time/mod.rs: `impl FormatTime for SystemTime { fn format_time(..) { write!(w, "{}", datetime::DateTime::from(
+    std::time::SystemTime::now())) } }` and the verification hook `__verif_format_system_time(t, w)`: the two must be the
+    same expression up to the instant (`SystemTime::now()` / the caller-supplied `t`); it becomes [format_system_time].
 
 How it is translated (vocabulary: coq/theories/Time/MuslBase.v): one monadic step per Rust operation, in evaluation
 order, at the operand type Rust infers —
@@ -42,6 +45,7 @@ from rsparse import strip_comments  # noqa: E402
 import time_consts as tc  # noqa: E402
 
 SRC = "tracing-subscriber/src/fmt/time/datetime.rs"
+SRC_MOD = "tracing-subscriber/src/fmt/time/mod.rs"
 ITY = {"i8": "I8", "u8": "U8", "i32": "I32", "u32": "U32", "i64": "I64", "u64": "U64", "usize": "USIZE"}
 TY_MIN = {"i8": -128, "i32": -2 ** 31, "i64": -2 ** 63, "u8": 0, "u32": 0, "u64": 0, "usize": 0}
 TY_MAX = {"i8": 127, "i32": 2 ** 31 - 1, "i64": 2 ** 63 - 1, "u8": 255, "u32": 2 ** 32 - 1, "u64": 2 ** 64 - 1, "usize": 2 ** 64 - 1}
@@ -1199,12 +1203,49 @@ def gen_display(g, sig, body_text, out):
     out.append("Definition display (md : mode) (dt : datetime) : option (list Z) :=\n%s.\n" % indent(code))
 
 
-STUB_SIGS = {
-    "split": "(md : mode) (tv_sec tv_nsec : Z) : option (Z * Z)",
-    "from_parts": "(md : mode) (v_t v_nanos : Z) : option datetime",
-    "from_systemtime": "(md : mode) (tv_sec tv_nsec : Z) : option datetime",
-    "display": "(md : mode) (dt : datetime) : option (list Z)",
-}
+def gen_entry(src_mod, out):
+    """fmt/time/mod.rs: what SystemTime::format_time writes, and that the hook H2 writes the same for its argument"""
+    def tail_of(sig_re, what):
+        m = re.search(sig_re, src_mod)
+        if not m:
+            raise Unrec("%s not found in %s" % (what, SRC_MOD))
+        i = src_mod.index("{", m.end() - 1)
+        depth, j = 0, i
+        while j < len(src_mod):
+            depth += (src_mod[j] == "{") - (src_mod[j] == "}")
+            if depth == 0:
+                break
+            j += 1
+        P = Parser(src_mod[i:j + 1])
+        blk = P.block()
+        if blk[1] or blk[2] is None or blk[2][0] != "write":
+            raise Unrec("%s is not a single `write!(..)`" % what)
+        return m, blk[2], blk[3]
+    m1, w1, src1 = tail_of(r"impl\s+FormatTime\s+for\s+SystemTime\s*\{\s*fn\s+format_time\s*\(\s*&self\s*,\s*([a-z_]+)\s*:\s*&mut\s+Writer(?:<'_>)?\s*\)\s*->\s*fmt::Result\s*\{",
+                           "impl FormatTime for SystemTime")
+    m2, w2, src2 = tail_of(r"pub\s+fn\s+__verif_format_system_time\s*\(\s*([a-z_]+)\s*:\s*std::time::SystemTime\s*,\s*([a-z_]+)\s*:\s*&mut\s+dyn\s+fmt::Write\s*\)\s*->\s*fmt::Result\s*\{",
+                           "hook __verif_format_system_time")
+    NOW = ("call", ["std", "time", "SystemTime", "now"], [])
+
+    def norm(w, dest, instant):
+        if w[1] != ("var", dest):
+            raise Unrec("write! destination `%s`" % (w[1],))
+        if len(w[3]) != 1 or w[3][0][0] != "call" or w[3][0][1] != ["datetime", "DateTime", "from"] or w[3][0][2] != [instant]:
+            raise Unrec("argument of write! is not `datetime::DateTime::from(%s)`" % (instant,))
+        return w[2]
+    f1 = norm(w1, m1.group(1), NOW)
+    f2 = norm(w2, m2.group(2), ("var", m2.group(1)))
+    if f1 != f2:
+        raise Unrec("the hook formats with %s, SystemTime::format_time with %s" % (f2, f1))
+    pieces = parse_format(f1)
+    if [p for p in pieces if p[0] == "int"] != [("int", 0)]:
+        raise Unrec("format string %s of SystemTime::format_time is not one plain `{}`" % f1)
+    parts = ["p" if p[0] == "int" else "[" + "; ".join(str(b) for b in p[1]) + "]" for p in pieces]
+    out.append(comment("%s: impl FormatTime for SystemTime: %s" % (SRC_MOD, src1)))
+    out.append(comment("%s: hook __verif_format_system_time(%s, %s): %s" % (SRC_MOD, m2.group(1), m2.group(2), src2)))
+    out.append("Definition format_system_time (md : mode) (tv_sec tv_nsec : Z) : option (list Z) :=\n"
+               "  dt <- from_systemtime md tv_sec tv_nsec ;;\n  p <- display md dt ;;\n  Some %s.\n"
+               % ("(" + " ++ ".join(parts) + ")" if len(parts) > 1 else parts[0]))
 
 
 def main(repo, out=None):
@@ -1228,7 +1269,10 @@ def main(repo, out=None):
         sig, body = find_fn_body(src, r"impl\s+(?:(?:std::)?fmt::)?Display\s+for\s+DateTime\s*\{", "fmt")
         p2 = []
         gen_display(g, sig, body, p2)
-        parts = ["(** * impl From<SystemTime> for DateTime *)", ""] + p1 + ["(** * impl Display for DateTime *)", ""] + p2
+        p3 = []
+        gen_entry(strip_comments(open(os.path.join(repo, SRC_MOD), encoding="utf-8").read()), p3)
+        parts = (["(** * impl From<SystemTime> for DateTime *)", ""] + p1 + ["(** * impl Display for DateTime *)", ""] + p2
+                 + ["(** * fmt/time/mod.rs: what `SystemTime::format_time` writes for an instant (ASCII codes; None = panic) *)", ""] + p3)
     except Unrec as ex:
         unrec.append(str(ex))
     except OSError as ex:
@@ -1251,6 +1295,7 @@ def main(repo, out=None):
         G.append("Definition from_parts (md : mode) (v_t v_nanos : Z) : option datetime := None.")
         G.append("Definition from_systemtime (md : mode) (tv_sec tv_nsec : Z) : option datetime := None.")
         G.append("Definition display (md : mode) (dt : datetime) : option (list Z) := None.")
+        G.append("Definition format_system_time (md : mode) (tv_sec tv_nsec : Z) : option (list Z) := None.")
         G.append("")
     else:
         G += parts
@@ -1263,7 +1308,61 @@ def main(repo, out=None):
     return text, unrec
 
 
+SELFTEST = [
+    # (file, old text, new text, expectation): the translator must either follow the edit or refuse it, never ignore it
+    (SRC, "if remsecs < 0i32 {", "if remsecs < 0i32 && days > 0 {", "unrecognised"),
+    (SRC, "while i32::from(DAYS_IN_MONTH[months as usize]) <= remdays {", "while 30 <= remdays {", "unrecognised"),
+    (SRC, "    month: u8,\n    day: u8,", "    day: u8,\n    month: u8,", "unrecognised"),
+    (SRC, '"{:05}"', '"{:>5}"', "unrecognised"),
+    (SRC, "let mut days: i64 =", "let _probe = t.rem_euclid(7);\n        let mut days: i64 =", "unrecognised"),
+    (SRC, "remsecs += 86_400;", "remsecs += 86_400; days = days.saturating_sub(0);", "unrecognised"),
+    (SRC, "duration.subsec_nanos())\n            }\n            Err", "duration.subsec_micros())\n            }\n            Err", "unrecognised"),
+    (SRC_MOD, "write!(w, \"{}\", datetime::DateTime::from(t))", "write!(w, \"{}Z\", datetime::DateTime::from(t))", "unrecognised"),
+    (SRC, "self.nanos / 1_000", "self.nanos / 1_024", "changed"),
+    (SRC, "if self.year > 9999 {", "if self.year > 99999 {", "changed"),
+    (SRC, '"{:04}"', '"{:06}"', "changed"),
+    (SRC, "if q_cycles == 25 {", "if q_cycles >= 25 {", "changed"),
+    (SRC, "(-secs - 1, 1_000_000_000 - nanos)", "(-secs, 1_000_000_000 - nanos)", "changed"),
+    (SRC, "hour: (remsecs / 3600) as u8,", "hour: (remsecs / 3600 + 0) as u8,", "changed"),
+]
+
+
+def selftest(repo):
+    """Apply each SELFTEST edit to a private copy of the two source files and check the translator's reaction.
+    -> (applied, failures).  Edits whose anchor text is not in the current source are skipped (the source moved on)."""
+    import shutil
+    import tempfile
+    base_text, base_unrec = main(repo, None)
+    if base_unrec:
+        return 0, []                       # nothing to compare with; the translator tie reports this already
+    applied, failures = 0, []
+    tmp = tempfile.mkdtemp(prefix="datetime_rs_selftest")
+    try:
+        for rel in (SRC, SRC_MOD):
+            os.makedirs(os.path.dirname(os.path.join(tmp, rel)), exist_ok=True)
+        for rel, old, new, expect in SELFTEST:
+            texts = {r: open(os.path.join(repo, r), encoding="utf-8").read() for r in (SRC, SRC_MOD)}
+            if texts[rel].count(old) != 1:
+                continue
+            texts[rel] = texts[rel].replace(old, new)
+            for r, t in texts.items():
+                with open(os.path.join(tmp, r), "w", encoding="utf-8") as f:
+                    f.write(t)
+            text, unrec = main(tmp, None)
+            applied += 1
+            if expect == "unrecognised" and not unrec:
+                failures.append("edit `%s` -> `%s` was accepted" % (old[:40], new[:40]))
+            if expect == "changed" and (unrec or text == base_text):
+                failures.append("edit `%s` -> `%s` %s" % (old[:40], new[:40], "was refused: %s" % unrec if unrec else "left the generated model unchanged"))
+    finally:
+        shutil.rmtree(tmp, ignore_errors=True)
+    return applied, failures
+
+
 if __name__ == "__main__":
+    if len(sys.argv) > 1 and sys.argv[1] == "--selftest":
+        print(selftest(sys.argv[2] if len(sys.argv) > 2 else "/repo"))
+        sys.exit(0)
     t, u = main(sys.argv[1] if len(sys.argv) > 1 else "/repo", sys.argv[2] if len(sys.argv) > 2 else None)
     if len(sys.argv) <= 2:
         sys.stdout.write(t)
